@@ -1,6 +1,6 @@
 import NeoFS.Lemmas.NetmapRingResize
-/-! # C08: exactly when `updateSnapshotCount` HALTs. Under the invariant and for `K ≤ 256` the only FAULT
-besides the guards is a move whose source slot is absent (deleted by an earlier grow and not refilled yet):
+/-! # C08: exactly when `updateSnapshotCount` HALTs. Under the invariant the only FAULT
+besides the guards (witness, `1 ≤ K ≤ 256`, changed count) is a move whose source slot is absent (deleted by an earlier grow and not refilled yet):
 `storage.Put(key, nil)`. -/
 namespace NeoFS.NetmapRing
 open NeoFS
@@ -64,18 +64,19 @@ theorem movesOf_bound (s : State) (p : Spec) (h : RingInv s p) (new : Nat) (hn :
     obtain ⟨k, hk, rfl⟩ := hm; simp only []
     split <;> omega
 
-theorem resize_halts_iff_nat (s : State) (p : Spec) (h : RingInv s p) (env : Env) (new : Nat) (hn : new ≤ 256) :
+theorem resize_halts_iff_nat (s : State) (p : Spec) (h : RingInv s p) (env : Env) (new : Nat) :
     (updateSnapshotCount s env (new : Int)).isSome = true ↔
-      env.alphabet = true ∧ 0 < new ∧ s.count ≠ new ∧ ∀ m ∈ movesOf s new, (rget s.ring m.1).isSome = true := by
+      env.alphabet = true ∧ 0 < new ∧ new ≤ 256 ∧ s.count ≠ new ∧
+      ∀ m ∈ movesOf s new, (rget s.ring m.1).isSome = true := by
   have hc := h.count_eq
   have hid := h.id_lt
   have hle := h.n_le
-  have hbound := movesOf_bound s p h new hn
   constructor
   · intro hs
     obtain ⟨s', hs'⟩ := Option.isSome_iff_exists.mp hs
-    obtain ⟨ha, hpos, hne, hcase⟩ := resize_some_nat s s' env new hs'
-    refine ⟨ha, hpos, hne, ?_⟩
+    obtain ⟨ha, hpos, hn, hne, hcase⟩ := resize_some_nat s s' env new hs'
+    have hbound := movesOf_bound s p h new hn
+    refine ⟨ha, hpos, hn, hne, ?_⟩
     rcases hcase with ⟨hlt, r, r', h1, _, _⟩ | ⟨hlt, r, r', h1, _, _⟩
     · have e : movesOf s new = growMoves s.count new s.id := by simp [movesOf, hlt]
       rw [e] at hbound ⊢
@@ -86,11 +87,13 @@ theorem resize_halts_iff_nat (s : State) (p : Spec) (h : RingInv s p) (env : Env
         simp [movesOf, this]
       rw [e] at hbound ⊢
       exact (applyMoves_isSome_iff _ (shrinkMoves_safe _ _ _) hbound s.ring).mp (by rw [h1]; rfl)
-  · rintro ⟨ha, hpos, hne, hsrc⟩
+  · rintro ⟨ha, hpos, hn, hne, hsrc⟩
+    have hbound := movesOf_bound s p h new hn
     rw [updateSnapshotCount_nat]
     have hna : ¬ ((!env.alphabet) = true) := by simp [ha]
     have hk : ¬ ((new : Int) ≤ 0) := by omega
-    rw [if_neg hna, if_neg hk, if_neg hne]
+    have hu : ¬ ((new : Int) > 256) := by omega
+    rw [if_neg hna, if_neg hk, if_neg hu, if_neg hne]
     by_cases hg : s.count < new
     · rw [if_pos hg]
       have e : movesOf s new = growMoves s.count new s.id := by simp [movesOf, hg]
